@@ -123,4 +123,67 @@ def C13(tier):
     return r
 
 
+TOKEN_ASSUME = [
+    'the reader is driven from its token interface (after str.splitlines/str.split): character-level behaviour of those built-ins, of re and of int() is trusted CPython',
+    'symbolic tokens range over the finite alphabet listed in bounds (every token class the reader distinguishes plus boundary cases); edits are one (thorough: two) symbolic token(s) replaced in / inserted into the templates, every position',
+    'z3 decides every query (index constraints, linear); unknown = inconclusive',
+]
+LEVEL_TOKEN = ('symbolic execution of the real BLT reader (and Election constructor) on token streams whose tokens are solver variables over a finite '
+               'alphabet; each feasible path ends in a profile error, an accepted profile satisfying the invariants, or a counterexample that is '
+               'rendered to text and replayed on the pristine reader')
+
+
+def _texts_trunc():
+    from harness import tokrun
+    texts = []
+    for name, t in tokrun.TEMPLATES.items():
+        base = tokrun.flat(t)
+        for k in range(len(base) + 1):
+            texts.append(' '.join(base[:k]))
+            texts.append('\n'.join(base[:k]))
+        for k in range(len(base)):
+            texts.append(' '.join(base[:k] + base[k + 1:]))
+    texts += ['', ' ', '\n', '\ufeff', '\ufeff3 1 1 1 0 0 "a" "b" "c" "t"']
+    return texts
+
+
+def C16(tier):
+    from harness import tokrun
+    jobs = []
+    Ls = [1, 2, 3] if tier != 'thorough' else [1, 2, 3, 4]
+    for L in Ls:
+        for layout in ('one-line', 'per-line'):
+            if L == 4:
+                # split the 4-token soups by the first token class to spread them over workers
+                for pfx in (['1'], ['2'], ['3'], ['x']):
+                    jobs.append(dict(kind='token', name='soup L=1+3 prefix=%s %s' % (pfx, layout), mode='soup', L=3, prefix=pfx, layout=layout,
+                                     budget_s=1500, weight=10))
+            else:
+                jobs.append(dict(kind='token', name='soup L=%d %s' % (L, layout), mode='soup', L=L, layout=layout, budget_s=600,
+                                 weight=L * L))
+    for name, t in tokrun.TEMPLATES.items():
+        n = len(tokrun.flat(t))
+        for edit in ('replace', 'insert'):
+            pos = list(range(n + (1 if edit == 'insert' else 0)))
+            half = len(pos) // 2
+            for part in (pos[:half], pos[half:]):
+                jobs.append(dict(kind='token', name='%s %s positions %d..%d' % (name, edit, part[0], part[-1]), mode='edit', template=name,
+                                 edit=edit, positions=part, budget_s=600, weight=3))
+    if tier == 'thorough':
+        import itertools
+        for name in ('tiny', 'plain'):
+            n = len(tokrun.flat(tokrun.TEMPLATES[name]))
+            pairs = list(itertools.combinations(range(n), 2))
+            for i in range(0, len(pairs), 8):
+                jobs.append(dict(kind='token', name='%s two edits %s' % (name, pairs[i:i + 8]), mode='edit2', template=name, pairs=pairs[i:i + 8],
+                                 budget_s=1500, weight=6, validate_every=5))
+    jobs.append(dict(kind='token', name='truncations and deletions (concrete)', mode='concrete', texts=_texts_trunc(), budget_s=300))
+    jobs.append(dict(kind='token', name='ranking array typecode law (symbolic candidate count)', mode='array', budget_s=300))
+    return dict(jobs=jobs, level_text=LEVEL_TOKEN, assumptions=TOKEN_ASSUME,
+                require_reach=['error', 'accepted', 'typecode-B', 'typecode-H'],
+                bounds=dict(alphabet=tokrun.ALPHABET, soup_lengths=Ls, templates={k: ' '.join(tokrun.flat(v)) for k, v in tokrun.TEMPLATES.items()},
+                            edits='one symbolic token replaced / inserted at every position' + ('; two replaced on tiny, plain' if tier == 'thorough' else ''),
+                            candidate_count_for_array_law='1..10^7', rules_constructed=tokrun.RULES))
+
+
 REGISTRY = {k: v for k, v in globals().items() if k[0] == 'C' and k[1:].isdigit()}
